@@ -211,6 +211,14 @@ def walk_check(x, opt, errs, is_node_level=True):
             rest = [k for k in keys if k != TYPE_KEY]
             if (TYPE_KEY in x and keys[0] != TYPE_KEY) or rest != sorted(rest):
                 errs.add("sort-keys: a nested mapping is not '__type first, rest sorted'")
+        if opt == "srcidx":
+            for key in ("source",):
+                if key in x and isinstance(x[key], dict) and x[key] and set(x[key]) != {"idx"}:
+                    errs.add("index-based sources: a nested source is serialized in full instead of as an index reference")
+            if x.get(TYPE_KEY) == "SourceSet" or "sources" in x:
+                for sub in x.get("sources", []):
+                    if isinstance(sub, dict) and sub and set(sub) != {"idx"}:
+                        errs.add("index-based sources: a member of a source set is serialized in full")
         if opt == "explorer" and x.get(TYPE_KEY) == "SN":
             if x.get("_children") != ["c", "items"]:
                 errs.add("explorer dialect: a node mapping does not list its child field names")
